@@ -33,7 +33,9 @@ var hostileOCI = []func() *oci.Spec{
 	func() *oci.Spec { return &oci.Spec{} },
 	func() *oci.Spec { return &oci.Spec{Process: &oci.Process{}} },
 	func() *oci.Spec { return &oci.Spec{Linux: &oci.Linux{}} },
-	func() *oci.Spec { return &oci.Spec{Linux: &oci.Linux{Resources: &oci.LinuxResources{}}, Hooks: &oci.Hooks{}} },
+	func() *oci.Spec {
+		return &oci.Spec{Linux: &oci.Linux{Resources: &oci.LinuxResources{}}, Hooks: &oci.Hooks{}}
+	},
 	func() *oci.Spec {
 		return &oci.Spec{Process: &oci.Process{Env: []string{"", "=", "A", "A=b"}}, Mounts: []oci.Mount{{}, {Destination: "//"}},
 			Linux: &oci.Linux{Devices: []oci.LinuxDevice{{}}, IntelRdt: &oci.LinuxIntelRdt{}}}
